@@ -146,7 +146,7 @@ theorem cstep_atomic_inv (σ : CSt) (e : Ev) (σ' : CSt) (out : Out) (J : JA σ)
   | ack s =>
     simp only [cstep, Option.some.injEq, Prod.mk.injEq] at h
     obtain ⟨rfl, rfl⟩ := h
-    obtain ⟨I', p⟩ := step_inv I (.ack s)
+    obtain ⟨I', p⟩ := step_inv I (.ack s) trivial
     exact ⟨⟨I', gcok_ack I s σ.gc G⟩, p, noret_of (Or.inl rfl)⟩
   | gc =>
     simp only [cstep] at h
@@ -155,7 +155,7 @@ theorem cstep_atomic_inv (σ : CSt) (e : Ev) (σ' : CSt) (out : Out) (J : JA σ)
       split at h
       · simp only [Option.some.injEq, Prod.mk.injEq] at h
         obtain ⟨rfl, rfl⟩ := h
-        obtain ⟨I', p⟩ := step_inv I .gc
+        obtain ⟨I', p⟩ := step_inv I .gc trivial
         refine ⟨⟨I', ?_⟩, p, noret_of (Or.inl rfl)⟩
         show GcOK _ σ.gc
         rw [hg]; trivial
@@ -168,7 +168,7 @@ theorem cstep_atomic_inv (σ : CSt) (e : Ev) (σ' : CSt) (out : Out) (J : JA σ)
       split at h
       · simp only [Option.some.injEq, Prod.mk.injEq] at h
         obtain ⟨rfl, rfl⟩ := h
-        obtain ⟨I', p⟩ := step_inv I .reopen
+        obtain ⟨I', p⟩ := step_inv I .reopen trivial
         refine ⟨⟨I', ?_⟩, p, noret_of (Or.inl rfl)⟩
         show GcOK _ σ.gc
         rw [hg]; trivial
@@ -177,14 +177,14 @@ theorem cstep_atomic_inv (σ : CSt) (e : Ev) (σ' : CSt) (out : Out) (J : JA σ)
   | crash =>
     simp only [cstep, Option.some.injEq, Prod.mk.injEq] at h
     obtain ⟨rfl, rfl⟩ := h
-    obtain ⟨I', p⟩ := step_inv I .reopen
+    obtain ⟨I', p⟩ := step_inv I .reopen trivial
     exact ⟨⟨I', trivial⟩, p, noret_of (Or.inl rfl)⟩
   | crashPut t m k =>
     simp only [cstep] at h
     split at h
     · simp only [Option.some.injEq, Prod.mk.injEq] at h
       obtain ⟨rfl, rfl⟩ := h
-      obtain ⟨I', p⟩ := step_inv I (.crashPut m k)
+      obtain ⟨I', p⟩ := step_inv I (.crashPut m k) trivial
       exact ⟨⟨I', trivial⟩, p, noret_of (Or.inl rfl)⟩
     · cases h
   | gcSnap =>
